@@ -45,6 +45,17 @@ count, clock, environment, directory names.
   configuration that registers the base image's index as a build repository
   (`emittedRegistered_scratch_dependent`), `tie_scratchUses` (every read of `TempDir()` / `APKIndexPath()` in
   pkg/build and pkg/baseimg is one of the audited ones), `tie_buildRepos_sortedSet`.
+* The history of the process (library use of pkg/build: several images built by one process; model
+  `MemoHistory`: the process-wide memo of disqualification maps, `Get` handing out a copy or the stored object on
+  its miss / hit path, the solver writing its disqualifications into the map it was handed):
+  `build_history_independent` (copies on both paths: for every history of earlier builds, over any keys and
+  worlds, the target resolves as in a fresh process), `build_history_dependent_missAlias` /
+  `build_history_dependent_hitAlias` (the negations when either path hands out the stored object),
+  `build_history_independent_partial` (whatever `Get` hands out: a target whose key no earlier build used resolves
+  as in a fresh process — one solve per key, the CLI), `tie_dqGet_stmts` / `dqGet_copies` /
+  `dqGet_history_independent` (the statement list of `disqualifyCache.Get` regenerated from
+  shameful_global_caches.go, the shape read off it, the theorem for that shape); the repro suite's `after-…`
+  variants build other configurations first in the same child process.
 * What the model cannot exhibit (partial): the Go scheduler, pgzip, the runtime's map order, and the
   third-party tarball writer are exercised by the correspondence suite `repro` only (child processes
   under different GOMAXPROCS / TZ / umask / cwd / TMPDIR / environment / cache histories, every output
@@ -57,6 +68,8 @@ import Apko.Proofs.Lemmas.ComparatorResolve
 import Apko.Proofs.Lemmas.IndexOrder
 import Apko.Generated.IndexOrder
 import Apko.Generated.Glue
+import Apko.Generated.Alias
+import Apko.Proofs.Lemmas.MemoHistory
 
 namespace Apko.C01
 open Apko
@@ -635,6 +648,81 @@ theorem tie_getRepositoryIndexes_positional :
       ["if err := eg.Wait(); err != nil { return nil, err }",
        "indexes = slices.DeleteFunc(indexes, func(idx NamedIndex) bool { return idx == nil })",
        "return indexes, nil"] := ⟨rfl, rfl, rfl, rfl, rfl⟩
+
+/-! ## the history of the process: images built earlier by the same process -/
+
+open MemoHistory in
+/-- FULL statement: whatever was built before in this process (any keys, any worlds, any solver), the target
+resolves to what it resolves to in a fresh process. -/
+def HistoryIndependent (sh : GetShape) : Prop :=
+  ∀ (W R : Type) (diff : Key → Dq) (S : Solver W R) (hist : List (Key × W)) (target : Key × W),
+    after sh diff S hist target = after sh diff S [] target
+
+open MemoHistory in
+theorem build_history_independent : HistoryIndependent ⟨true, true⟩ := by
+  intro W R diff S hist target
+  rw [after_copying, after_copying]
+
+open MemoHistory in
+/-- the solver of the witnesses: a solve disqualifies the ids of its world and reports the map it started from -/
+def echoSolver : Solver (List Nat) (List Nat) := ⟨fun w _ => w, fun _ dq => dq⟩
+
+open MemoHistory in
+/-- the miss path returns the stored map itself (`return dq` behind `r.fill(indexes, dq)`): the first solve of a key
+writes its disqualifications into the memo, the next build with that key starts from them -/
+theorem build_history_dependent_missAlias : ¬ HistoryIndependent ⟨false, true⟩ := by
+  intro h
+  have := h _ _ (fun _ => []) echoSolver [([], [1])] ([], [2])
+  exact absurd this (by decide)
+
+open MemoHistory in
+/-- the hit path returns the stored map itself: the second solve of a key pollutes it for the third -/
+theorem build_history_dependent_hitAlias : ¬ HistoryIndependent ⟨true, false⟩ := by
+  intro h
+  have := h _ _ (fun _ => []) echoSolver [([], [1]), ([], [3])] ([], [2])
+  exact absurd this (by decide)
+
+open MemoHistory in
+/-- whatever `Get` hands out: a target whose key (the index objects of its architectures) no earlier build of the
+process used resolves as in a fresh process -/
+theorem build_history_independent_partial (sh : GetShape) (W R : Type) (diff : Key → Dq) (S : Solver W R)
+    (hist : List (Key × W)) (target : Key × W) (hk : ∀ b ∈ hist, b.1 ≠ target.1) :
+    after sh diff S hist target = after sh diff S [] target := by
+  rw [after_absent sh diff S hist target hk, after_absent sh diff S [] target (by intro b hb; cases hb)]
+
+open MemoHistory in
+example : (∀ b ∈ [(([7] : Key), [1])], b.1 ≠ (([] : Key), [2]).1) ∧
+    after ⟨false, false⟩ (fun _ => []) echoSolver [([7], [1])] ([], [2]) = [] := by decide
+
+/-- the statements of `disqualifyCache.Get` that touch the published map, in source order -/
+def dqGetStmts : List String := (Generated.aliasPublishedUses.filter (·.1 = "disqualifyCache.Get")).map (·.2)
+
+theorem tie_dqGet_stmts : dqGetStmts =
+    ["dq := r.find(indexes)", "dq != nil", "return maps.Clone(dq)",
+     "dq := disqualifyDifference(ctx, byArch)", "r.fill(indexes, dq)", "return maps.Clone(dq)"] := by decide
+
+/-- the statements of `Get` that are not returns: lookup, test of the lookup, computation on a miss -/
+def dqGetPlain : List String :=
+  ["dq := r.find(indexes)", "dq != nil", "dq == nil", "dq := disqualifyDifference(ctx, byArch)",
+   "dq = disqualifyDifference(ctx, byArch)"]
+
+theorem dqGet_copies :
+    MemoHistory.shapeOf "r.fill(indexes, dq)" "return maps.Clone(dq)" dqGetPlain dqGetStmts = ⟨true, true⟩ := by decide
+
+theorem dqGet_history_independent :
+    HistoryIndependent (MemoHistory.shapeOf "r.fill(indexes, dq)" "return maps.Clone(dq)" dqGetPlain dqGetStmts) := by
+  rw [dqGet_copies]; exact build_history_independent
+
+/-- the same reading of `resolverCache.Get`: a `Clone()` on both paths -/
+theorem resolverGet_copies :
+    MemoHistory.shapeOf "r.fill(indexes, pr)" "return pr.Clone()"
+      ["pr := r.find(indexes)", "pr != nil", "pr == nil", "pr := newPkgResolver(ctx, indexes)", "pr = newPkgResolver(ctx, indexes)"]
+      ((Generated.aliasPublishedUses.filter (·.1 = "resolverCache.Get")).map (·.2)) = ⟨true, true⟩ := by decide
+
+/-- what the reading gives for a `Get` that returns the stored map behind the `fill` -/
+example : MemoHistory.shapeOf "r.fill(indexes, dq)" "return maps.Clone(dq)" dqGetPlain
+    ["dq := r.find(indexes)", "dq == nil", "dq = disqualifyDifference(ctx, byArch)", "r.fill(indexes, dq)", "return dq",
+     "return maps.Clone(dq)"] = ⟨false, true⟩ := by decide
 
 /-! ## the scratch directory -/
 
